@@ -112,12 +112,12 @@ def hasNewRelevant (st : NSt) (t : NType) : Bool :=
 
 /-- accessors left in `getsetMethods` by earlier types matter only with `-json`, and only when one of
     them is named like the getter / setter of a visible unexported field that lacks that flag -/
-def accRelevantFor (get : Bool) (st : NSt) (t : NType) : Bool :=
+def accRelevantFor (get : Bool) (sw : Bool × Bool) (st : NSt) (t : NType) : Bool :=
   ((Ctor.flatten t.tree).filter (fun f => !f.isShadowed && !f.isEmbeded)).any (fun f =>
-    !exported f.name && !flagOf get t f && (accNames st.accs get).contains (accKey get f.name))
+    !exported f.name && !flagOf get sw t f && (accNames st.accs get).contains (accKey get f.name))
 
 def accRelevant (fl : NFlags) (st : NSt) (t : NType) : Bool :=
-  fl.json && (accRelevantFor true st t || accRelevantFor false st t)
+  fl.json && (accRelevantFor true (switchOf fl t) st t || accRelevantFor false (switchOf fl t) st t)
 
 def mapCtorRelevant (st : MSt) (t : MType) : Bool :=
   match t.dest with
